@@ -26,6 +26,13 @@ impl<'a> Iterator for Ipv6ExtensionSliceIter<'a> {
         use ip_number::*;
         use Ipv6ExtensionSlice::*;
 
+        // A laxly parsed chain can end (after a stop error) in front of a
+        // header that is announced by the last "next header" field but is
+        // not part of the slice. Nothing is left to iterate over in that case.
+        if self.rest.is_empty() {
+            return None;
+        }
+
         match self.next_header {
             // Note on the unsafe calls:
             //
